@@ -17,6 +17,8 @@ CONSTANTS
   MaxConflicts = 0
   CancelIsTimeout = FALSE
   RecordScript = TRUE
+  FlushAbandon = FALSE
+  FlushResBuffered = FALSE
   NetLoss = FALSE
 VIEW MView
 INVARIANTS MonSafetyHolds MonFinalHolds MonPremiseMet
